@@ -38,6 +38,16 @@ func init() {
 		}, &slip.CLPkg)
 }
 
+// nullHierarchy is the class precedence list of nil, the only object of type
+// null.
+var nullHierarchy = []slip.Symbol{
+	slip.Symbol("null"),
+	slip.SymbolSymbol,
+	slip.ListSymbol,
+	slip.SequenceSymbol,
+	slip.TrueSymbol,
+}
+
 // Typep represents the typep function.
 type Typep struct {
 	slip.Function
@@ -52,12 +62,18 @@ func (f *Typep) Call(s *slip.Scope, args slip.List, depth int) slip.Object {
 	}
 	switch ta := args[0].(type) {
 	case nil:
-		if strings.EqualFold("null", string(sym)) {
-			return slip.True
+		for _, h := range nullHierarchy {
+			if strings.EqualFold(string(h), string(sym)) {
+				return slip.True
+			}
 		}
 	case slip.List:
-		if len(ta) == 0 && strings.EqualFold("null", string(sym)) {
-			return slip.True
+		if len(ta) == 0 {
+			for _, h := range nullHierarchy {
+				if strings.EqualFold(string(h), string(sym)) {
+					return slip.True
+				}
+			}
 		}
 		for _, h := range ta.Hierarchy() {
 			if strings.EqualFold(string(h), string(sym)) {
